@@ -60,6 +60,10 @@ def cases(tier, rng):
         for sec in ("abc", "none"):
             line = "c05s %s %s good %d" % (sec, sec, must)
             cs.append({"line": line, "key": line, "model": False, "tags": {"carrier": "udp-secret+cert", "ssecret": sec, "csecret": sec, "must": must}})
+    # ONE upstream object connecting again and again (as after every lost session): the holder of the right secret is let in every time
+    for sec in ("abc", "none"):
+        line = "c05r %s 3" % sec
+        cs.append({"line": line, "key": line, "model": False, "tags": {"carrier": "udp-secret-reconnect", "ssecret": sec, "csecret": sec}})
     # a UDP endpoint protected by a shared secret: equal and different secrets, one side without
     secrets = ["none", "abc", "abd", "ABC", "ab", "abcd", "p%40ss%3Aword", "x" * 40]
     if tier == "thorough":
@@ -98,6 +102,10 @@ def oracle(case, impl):
             return [("good-peer-refused;carrier=udp-secret+cert", "a StartTLS-capable UDP endpoint with a matching secret was not reached: %s -> %s" % (case["line"], impl))]
         if "tech" in p and p[p.index("tech") + 1] != "tls":
             return [("offered-starttls-not-upgraded;carrier=udp", "the server offered StartTLS on a carrier that only has the shared-secret cipher; the client reports '%s' protection instead of TLS: %s" % (p[p.index("tech") + 1], case["line"]))]
+        return []
+    if t["carrier"] == "udp-secret-reconnect":
+        if p != ["ok", "ok", "ok"]:
+            return [("right-secret-refused;reconnect", "client and endpoint hold the same secret (%s); one upstream object connecting three times in a row got: %s" % (t["ssecret"], impl))]
         return []
     if t["carrier"] == "udp-secret":
         same = t["ssecret"] == t["csecret"]
